@@ -630,6 +630,9 @@ func (c *c03Ctx) item(x ap.Item, label string, toCoq bool, idx int) {
 		if got != want {
 			c.violate(Violation{Op: "GobDecode(GobEncode(x))", Input: in, Expected: want, Observed: got + "   [wire " + wire() + "]", Class: cls, Index: idx})
 		}
+		if bad := ifaceWordsBad(out); len(bad) > 0 {
+			c.violate(Violation{Op: "GobDecode(GobEncode(x))", Input: in, Expected: "every interface-typed property of the decoded value can be compared and asserted as such", Observed: "interface word of another interface type in " + strings.Join(bad, ", "), Index: idx})
+		}
 	} else {
 		c.violate(Violation{Op: "GobDecode(GobEncode(x))", Input: in, Expected: want, Observed: "error: " + derr.Error(), Class: cls, Index: idx})
 	}
